@@ -272,7 +272,7 @@ def check_command(t: E.Tally, cmd, active: str | None, label: str) -> None:
                 continue
             t.n += 1
             if not fsm.res or fsm.res[0][0] != "pkt" or fsm.res[0][1].strip() != reply.strip():
-                t.bad(f"C06:reply-not-recognised:{code}", f"command {frame!r}: proper reply {reply!r} -> {fsm.state()} {fsm.res}", rep)
+                t.bad(f"C06:reply-not-recognised:{label if label.startswith('sweep:') else code}", f"command {frame!r}: proper reply {reply!r} -> {fsm.state()} {fsm.res}", rep)
                 break
         # --- the proper reply overtaking the echo (both orders are 'the proper reply from the addressed device')
         fsm.close()
@@ -286,7 +286,7 @@ def check_command(t: E.Tally, cmd, active: str | None, label: str) -> None:
             if not fsm.res:
                 fsm.inject(wire)
             if not fsm.res or fsm.res[0][0] != "pkt" or fsm.res[0][1].strip() != reply.strip():
-                t.bad("C06:reply-not-recognised:before-echo", f"command {frame!r}, active gateway {active}: proper reply {reply!r} arriving before the echo, then the echo -> {fsm.state()} {fsm.res}", rep)
+                t.bad("C06:reply-not-recognised:before-echo" + (f":{label}" if label.startswith("sweep:") else ""), f"command {frame!r}, active gateway {active}: proper reply {reply!r} arriving before the echo, then the echo -> {fsm.state()} {fsm.res}", rep)
     finally:
         fsm.close()
 
@@ -332,6 +332,24 @@ def commands(quick: bool):
                 n += 1
                 if n >= (12 if quick else 60):
                     break
+
+
+    # device-type sweep: every request code addressed to a device of every type (the proper reply comes from that device, carrying
+    # the request's context) - the header rules depend on the types of the two ends, not only on the code
+    for code, d in sorted(CODES_SCHEMA.items()):
+        rx = d.get("RQ")
+        if not rx or not d.get("RP") or code in ("1FC9", "0404", "0418"):
+            continue
+        w = next(iter(rxlang.words(rx, k=0)), None)
+        if w is None:
+            continue
+        for dst in ("02:111111", "04:111111", "07:111111", "10:111111", "12:111111", "13:111111", "22:111111", "23:111111", "30:111111", "32:111111", "34:111111"):
+            try:
+                cmd = Command.from_attrs("RQ", dst, code, w)
+                _ = cmd.tx_header, cmd.rx_header
+            except Exception:  # noqa: BLE001
+                continue
+            yield f"sweep:to-type-{dst[:2]}", cmd
 
 
 def shard(arg) -> E.Tally:
